@@ -287,6 +287,33 @@ fn extreme(rng: &mut Rng) -> String {
     }
 }
 
+/// every operator, suffix and command applied to operands whose unit exponents sit at the limits of i64
+/// (2^63 - 1 = 7^2 * 73 * 127 * 337 * 92737 * 649657); the units have value 1, so all of it is cheap to compute
+fn exponent_edges() -> Vec<String> {
+    let mut out = vec![];
+    for u in ["K", "m", "s"] {
+        let max = format!("((((((({u}^49)^73)^127)^337)^92737)^649657))", u = u);
+        let min1 = format!("((((((({u}^49)^73)^127)^337)^92737)^-649657))", u = u);
+        let half = format!("((({u}^1073741824)^1073741824)^4)", u = u);
+        let nhalf = format!("((({u}^1073741824)^1073741824)^-4)", u = u);
+        for x in [&max, &min1, &half, &nhalf] {
+            for t in ["{x} degC", "{x} °F", "{x} delisle", "3 {x} degRe", "{x} {u}", "{x} / {u}", "{x} {u}^-1", "{x} / {u}^-1", "{x} {x}", "{x} / {x}", "{x}^2", "{x}^-1", "{x}^-2", "1 / {x}", "sqrt({x})",
+                      "{x} + {x}", "{x} - {u}", "{x} mod {x}", "{x} -> {x}", "{x} -> {u}", "1 {u} -> {x}", "{x} -> degC", "{x} -> hour;min", "{x}%", "units for {x}", "factorize {x}", "mass of {x} water",
+                      "{x} water", "{x} -> {x} {u}", "{x} {u} -> {x} / {u}^-1", "{x} -> 2 {x}", "now + {x}", "hypot({x}, {x})", "atan2({x}, {x})", "{x} << 1", "{x} and 1", "-{x}", "{x} -> hex", "{x} -> digits 5"] {
+                out.push(t.replace("{x}", x).replace("{u}", u));
+            }
+        }
+        out.push(format!("{} {}", half, half));
+        out.push(format!("{} / {}", half, nhalf));
+        out.push(format!("{} -> {} {}", max, half, half));
+    }
+    // names of value 1: only the powers of the printed names reach the limit
+    for q in ["1 -> (one^2147483647)^2147483647 * (one^2147483647)^2147483647 * (one^4)^2147483647 * one * one", "1 -> one / ((one^-2147483647)^2147483647 * (one^-2147483647)^2147483647 * (one^-4)^2147483647 / one)",
+              "1 -> (percent^2147483647)^2147483647 (percent^2147483647)^2147483647 (percent^4)^2147483647 percent percent", "1 -> ((one^1073741824)^1073741824)^4 ((one^1073741824)^1073741824)^4",
+              "1 -> 1 / ((one^1073741824)^1073741824)^4 / ((one^1073741824)^1073741824)^4", "1 -> (((((((one^49)^73)^127)^337)^92737)^649657)) one", "1 -> 1 / (((((((one^49)^73)^127)^337)^92737)^649657)) / one / one"] { out.push(q.to_string()); }
+    out
+}
+
 fn seeds() -> Vec<String> {
     // the suite's own query strings
     let mut out: Vec<String> = vec![];
@@ -360,6 +387,8 @@ pub fn run(o: &Opts) -> i32 {
               "floor(exp(1000))", "exp(1000) - exp(1000)", "exp(1000) hours", "exp(1000) m -> ft", "ln(-1) m -> ft;inch", "1 -> exp(1000)", "1 m -> exp(1000) m", "sqrt(exp(1000))^2",
               "m^100000", "kg^99999", "1 m^65536", "(m s)^123456", "m^-100000 s^100000", "1e-2147483648", "1e2147483648", "1e-2147483649", "1.5e-2147483648", "0e-2147483648", "1e-9999999999999999999",
               "factorize (m^2147483647)^2147483647 (m^2147483647)^2147483647 (m^4)^2147483647 m", "(s^-2147483647)^2147483647 (s^-2147483647)^2147483647 (s^-4)^2147483647 s^-2",
+              "1 -> 0^(-1/2)", "1 -> (10^400)^(1/2)", "1 m -> (10^400)^(1/2) m", "1 -> (-8)^(2/3)", "1 -> (10^400)^0.3", "1 -> 4^0.5", "1 m -> (4 m^2)^(1|2)", "1 -> 0^0.5", "1 -> (-1)^0.5", "1 -> 2^(1|3)^-1",
+              "#-2147483647 jan 1 BC#", "#jan 1, -2147483647 BC#", "#2147483647 jan 1 BC#", "#jan 1, 2147483648 BC#", "#-1 jan 1 BC#", "#0 jan 1 BC#", "#jan 1, -0 AD#",
               "x mod 0", "1 mod 0", "0^-1", "1 << -1", "1 -> base 1", "1 -> base 37", "#01:30 Europe/London#", "1e-400 -> digits 5", "1/0", "ans", "_", "1 m -> ;", "-> m", "->", "1 ->", "", " ", "\t", "\u{0}",
               "factorize kg m^2 s^-2 A^-1 K^-1", "units for 1", "search", "5 hours -> minute;second;", "1 -> hex m", "atan2(1)", "sqrt()", "hypot(1,2,3)", "exp(1000)", "exp(1e10)", "ln(0)", "log(-1)", "asin(2)",
               "1 degC + 1 degC", "5 degC m", "degC", "°", "1 ° C", "-5 °F -> °C", "1 K -> degC", "NaN", "inf", "1e400", "1e-400", "0x", "0b2", "1__0", "1e", "1e+", "1.5.5", "1|0", "1|", "|1", "'", "''", "'a", "\"", "\"a", "#", "##", "#a"] {
@@ -367,6 +396,11 @@ pub fn run(o: &Opts) -> i32 {
         if nreg % 8 == 7 { writeln!(req, "reset").unwrap(); writeln!(aux, "{}", json!({"k": "reset"})).unwrap(); emit("", "session-start", &mut req, &mut aux); }
         nreg += 1;
         emit(q, "regression", &mut req, &mut aux);
+    }
+    for q in exponent_edges() {
+        if nreg % 8 == 7 { writeln!(req, "reset").unwrap(); writeln!(aux, "{}", json!({"k": "reset"})).unwrap(); emit("", "session-start", &mut req, &mut aux); }
+        nreg += 1;
+        emit(&q, "exponent-edge", &mut req, &mut aux);
     }
     for _ in 0..nsess {
         writeln!(req, "reset").unwrap(); writeln!(aux, "{}", json!({"k": "reset"})).unwrap();
